@@ -44,6 +44,10 @@ struct verif_in {
 	int64_t b_size, b_mtime; int b_nsec; unsigned b_flag; uint64_t b_inode;
 	/* stamp index of the two disks */
 	int stamp_hit[2], full_hashed[2];
+	/* scan.emptydir */
+	int dir_found;
+	unsigned dflag;
+	unsigned cnt[7];
 	/* scan.full_hashed / elem.file_copy */
 	block_off_t blockmax;
 	unsigned bstate[NB];
@@ -375,5 +379,47 @@ void h_full_hashed(void)
 	VERIF_ASSERT(r == want, "a file is a source of inherited hashes only if it has blocks, every block has an up-to-date hash (BLK or REP) and none awaits a rehash");
 	VERIF_CANARY();
 }
+
+
+/* ---------------------------------------------------------------- scan_emptydir (whole body extracted) */
+#ifdef VERIF_EMPTYDIR
+static struct snapraid_dir DIR0, DIRNEW;
+static unsigned g_dir_alloc;
+static void *d_search(tommy_hashdyn *h, tommy_search_func *cmp, const void *arg, tommy_hash_t hash)
+{
+	(void)cmp; (void)hash;
+	VERIF_ASSERT(h == &DISK0.dirset && arg == (const void *)SUB, "the directory index of the disk is searched for this path");
+	return IN.dir_found ? &DIR0 : 0;
+}
+static struct snapraid_dir *d_alloc(const char *sub) { ++g_dir_alloc; DIRNEW.sub = (char *)sub; DIRNEW.flag = 0; return &DIRNEW; }
+#define tommy_hashdyn_search d_search
+#define dir_alloc d_alloc
+#include "region_scan_emptydir.c"
+#undef tommy_hashdyn_search
+#undef dir_alloc
+
+void h_scan_emptydir(void)
+{
+	VERIF_INPUTS();
+	SC.state = &ST;
+	SC.disk = &DISK0;
+	SC.count_equal = IN.cnt[0]; SC.count_move = IN.cnt[1]; SC.count_restore = IN.cnt[2]; SC.count_change = IN.cnt[3];
+	SC.count_remove = IN.cnt[4]; SC.count_insert = IN.cnt[5]; SC.count_copy = IN.cnt[6];
+	tommy_list_init(&SC.dir_insert_list);
+	DIR0.sub = SUB;
+	DIR0.flag = 0; /* a path is met once per scan */
+	g_dir_alloc = 0;
+	region_scan_emptydir(&SC, SUB);
+	VERIF_ASSERT(SC.count_equal == IN.cnt[0] && SC.count_move == IN.cnt[1] && SC.count_restore == IN.cnt[2] && SC.count_change == IN.cnt[3]
+		&& SC.count_remove == IN.cnt[4] && SC.count_insert == IN.cnt[5] && SC.count_copy == IN.cnt[6],
+		"an empty directory is neither a file nor a link: it takes no part in the change counters (empty-disk interlock, verdict of diff)");
+	if (IN.dir_found)
+		VERIF_ASSERT((DIR0.flag & FILE_IS_PRESENT) && g_dir_alloc == 0 && tommy_list_empty(&SC.dir_insert_list), "a recorded directory met again is marked present, nothing is inserted");
+	else
+		VERIF_ASSERT(g_dir_alloc == 1 && (DIRNEW.flag & FILE_IS_PRESENT) && tommy_list_head(&SC.dir_insert_list) == &DIRNEW.nodelist && DIRNEW.nodelist.next == 0,
+			"a new empty directory is recorded once, marked present");
+	VERIF_CANARY();
+}
+#endif
 
 #include "verif_tail.h"
